@@ -182,11 +182,12 @@ public:
 	{
 		if (a.ptr() == b.a.ptr())
 			return;
+		HashMap keep(b); // b may be a value stored in this map: hold its table while ours is released
 		if (--_rc() == 0) {
 			clear();
 			asl_destroy((AtomicCount*)&a[1]);
 		}
-		a = b.a;
+		a = keep.a;
 		++_rc();
 	}
 
